@@ -38,6 +38,9 @@ def run(ctx: Ctx):
     order_helpers(ctx)
     slice_properties(ctx)
     measure_dependence_mirror(ctx)
+    from .common import axis_role_lint
+
+    axis_role_lint(ctx, "axis-roles")
 
 
 def _swap_nf(nf: str) -> str:
